@@ -10,7 +10,8 @@ import shutil
 import sys
 
 pid, v, line = sys.argv[1], sys.argv[2], sys.argv[3]
-src = f"/tmp/seed_out/{pid}/{v}"
+rnd = os.environ.get("SEED_ROUND", "")
+src = f"/tmp/seed_out{rnd}/{pid}/{v}"
 dst = f"/verif/seeded/{pid}-{v}"
 m = re.search(r"demo_clean=(\d+) demo_patched=(\d+) suite=(.*)$", line)
 if not m:
@@ -29,7 +30,7 @@ meta = {
     "origin": "written by an independent sub-agent that saw only the property text and a scratch worktree",
     "needs_to_manifest": " ".join(notes.split())[:900],
     "verified_by_me": {
-        "where": f"scratch worktree /tmp/wt/{pid} (removed afterwards)",
+        "where": f"scratch worktree /tmp/wt{rnd}/{pid} (removed afterwards)",
         "commands": [
             f"PYTHONPATH=<wt> /venv/bin/python demo.py   (unmodified tree)  -> exit {clean}",
             f"git apply patch.diff; PYTHONPATH=<wt> /venv/bin/python demo.py -> exit {patched}",
